@@ -288,15 +288,20 @@ def members (s : Nat) : List Nat := (List.range fns.length).filter (fun i => s.t
   unless (doCollection &&& collectorClosure) == doCollection do IO.println "VIOL certificate: do_collection not in collectorClosureCert"
   for i in members collectorClosure do
     match fns[i]? with
-    | some f => unless (f.tag == .doCollection || exclusiveEntry f) do IO.println s!"VIOL reaches-do-collection: {i} {f.name}"
+    | some f => unless (f.tag == .doCollection || f.tag == .driverPart || exclusiveEntry f) do IO.println s!"VIOL reaches-do-collection: {i} {f.name}"
     | none => IO.println s!"VIOL reaches-do-collection: {i} ?"
+  unless entersOnlyVia adj driver driverParts do IO.println "VIOL driver-part: a function tagged as private helper of the collector driver is called from outside the driver"
+  for i in members driverParts do
+    match fns[i]? with
+    | some f => unless (!f.clientCallable && !f.isDropImpl && f.selfKind == .other) do IO.println s!"VIOL driver-part: {i} {f.name} is client-callable / a Drop impl / an Arena method"
+    | none => pure ()
   unless markedArenaField == "&mut Arena" do IO.println s!"VIOL marked-arena-field: {markedArenaField}"
   if constructsMarkedArena.isEmpty then IO.println "VIOL marked-arena: no constructor found"
   for i in constructsMarkedArena do
     match fns[i]? with
     | some f => unless (f.selfKind == .arena && f.recv == .refMut) do IO.println s!"VIOL constructs-marked-arena: {i} {f.name}"
     | none => pure ()
-  IO.println s!"INFO fns={fns.length} roots={count callbackRoots fns.length} closure={count cl fns.length} destructive={count destructive fns.length} reachDoCollection={count collectorClosure fns.length} builderDrops={count builderDrops fns.length}"
+  IO.println s!"INFO fns={fns.length} roots={count callbackRoots fns.length} closure={count cl fns.length} destructive={count destructive fns.length} reachDoCollection={count collectorClosure fns.length} driverParts={count driverParts fns.length} builderDrops={count builderDrops fns.length}"
 ''',
     "C20": '''import GcArena.Proofs.CallGraphDefs
 open GcArena.CallGraphM GcArena.Generated.CallGraph GcArena.CallGraphDefs
@@ -570,6 +575,8 @@ def _theorem_for(prop, v):
     if prop == "C03":
         if v.startswith("reaches-do-collection"):
             return "GcArena.C03s.collection_needs_exclusive_arena"
+        if v.startswith("driver-part"):
+            return "GcArena.C03s.driver_parts_private"
         if v.startswith(("marked-arena", "constructs-marked-arena")):
             return "GcArena.C03s.marked_arena_exclusive"
         if v.startswith(("names:", "unclassified:", "graph:")):
